@@ -2418,6 +2418,12 @@ impl Server {
             _ => return Ok(RespFrame::error("ERR invalid member format")),
         };
         
+        // Refuse an increment whose result is not a number (inf + -inf, or a NaN increment) before storing anything
+        let current = self.storage.zscore(db, &key, &member)?.unwrap_or(0.0);
+        if (current + increment).is_nan() {
+            return Ok(RespFrame::error("ERR resulting score is not a number (NaN)"));
+        }
+        
         // Increment score
         let new_score = self.storage.zincrby(db, key, member, increment)?;
         
